@@ -31,6 +31,9 @@ Square == [kind |-> "poly", name |-> "square", radial |-> <<U, U, U, U>>,
            verts |-> << <<0, U>>, <<U, 0>>, <<0, -U>>, <<-U, 0>> >>, renc |-> U]
 Kite == [kind |-> "poly", name |-> "kite", radial |-> <<U, U \div 2, U, U \div 2>>,
          verts |-> << <<0, U>>, <<U \div 2, 0>>, <<0, -U>>, <<-(U \div 2), 0>> >>, renc |-> U]
+\* the longest radial point is not the first one
+Kite2 == [kind |-> "poly", name |-> "kite2", radial |-> <<U \div 2, U, U \div 2, U>>,
+          verts |-> << <<0, U \div 2>>, <<U, 0>>, <<0, -(U \div 2)>>, <<-U, 0>> >>, renc |-> U]
 \* a quadrilateral without any mirror line (radial 1, 0.5, 0.8, 0.3): handedness matters
 Quad == [kind |-> "poly", name |-> "quad", radial |-> <<U, U \div 2, (4 * U) \div 5, (3 * U) \div 10>>,
          verts |-> << <<0, U>>, <<U \div 2, 0>>, <<0, -((4 * U) \div 5)>>, <<-((3 * U) \div 10), 0>> >>, renc |-> U]
